@@ -116,6 +116,72 @@ pub fn positions(seed: u64, n_random_hist: usize, n_sparse: usize) -> Result<Vec
         }
         out.push(PosSpec { fen, moves });
     }
+    // check-rich positions: long play-outs that prefer checking moves (open boards, cross-checks)
+    let n_checky = n_random_hist / 3;
+    let mut made = 0;
+    let mut tries2 = 0;
+    while made < n_checky && tries2 < n_checky * 30 {
+        tries2 += 1;
+        let mut p = Pos::startpos();
+        let fen = p.fen();
+        let mut moves = Vec::new();
+        let len = 30 + rng.below(90);
+        let mut ok = true;
+        for _ in 0..len {
+            let lm = p.legal_moves();
+            if lm.is_empty() {
+                ok = false;
+                break;
+            }
+            let checks: Vec<_> = lm.iter().filter(|m| { let q = p.make(m); q.in_check(q.stm) }).copied().collect();
+            let m = if !checks.is_empty() && rng.chance(1, 2) { *rng.pick(&checks) } else { *rng.pick(&lm) };
+            moves.push(m.uci());
+            p = p.make(&m);
+        }
+        if !ok || p.legal_moves().is_empty() || p.half >= 90 {
+            continue;
+        }
+        // half of them as a bare FEN (no history), half with the whole game as history
+        if rng.chance(1, 2) {
+            out.push(PosSpec { fen: p.fen(), moves: vec![] });
+        } else {
+            out.push(PosSpec { fen, moves });
+        }
+        made += 1;
+    }
+    // the fifty-move frontier: sparse unbalanced positions whose clock reaches 100 inside the search
+    let n_fifty = n_sparse / 2;
+    let mut made = 0;
+    let mut tries3 = 0;
+    while made < n_fifty && tries3 < n_fifty * 60 {
+        tries3 += 1;
+        if let Some(mut p) = corpus::random_sparse(&mut rng, 5) {
+            p.half = 94 + rng.below(6) as u32;
+            p.ep = -1;
+            if p.legal_moves().is_empty() {
+                continue;
+            }
+            // sometimes a few reversible moves played on top (history + clock moving towards 100)
+            let mut moves = Vec::new();
+            let fen = p.fen();
+            if rng.chance(1, 2) {
+                for _ in 0..(1 + rng.below(3)) {
+                    let lm: Vec<_> = p.legal_moves().into_iter().filter(|m| m.captured == 0 && super::oracle::kind(m.piece) != super::oracle::P).collect();
+                    if lm.is_empty() || p.half >= 99 {
+                        break;
+                    }
+                    let m = *rng.pick(&lm);
+                    moves.push(m.uci());
+                    p = p.make(&m);
+                }
+                if p.legal_moves().is_empty() {
+                    continue;
+                }
+            }
+            out.push(PosSpec { fen, moves });
+            made += 1;
+        }
+    }
     let mut sparse = 0;
     let mut guard = 0;
     while sparse < n_sparse && guard < n_sparse * 50 {
@@ -376,7 +442,7 @@ pub fn run_c11(tier: &str, seed: u64, shard: usize, of: usize, only_job: Option<
     for spec in &specs {
         let units = Pos::from_fen(&spec.fen).map(|p| p.sq.iter().filter(|&&x| x != 0).count()).unwrap_or(32);
         let max_depth = if units <= 6 { 6 } else if units <= 10 { 5 } else { 4 };
-        let max_depth = if thorough { max_depth } else { max_depth.min(4) };
+        let max_depth = if thorough { max_depth } else if job % 2 == 0 { max_depth.min(4) } else { max_depth.min(3) };
         for depth in 1..=max_depth {
             job += 1;
             if job % of != shard {
@@ -498,7 +564,7 @@ fn c11_case(b: &Board, spec: &PosSpec, depth: u8, job: usize, ev: &SimpleEvaluat
 
 pub fn run_c16(tier: &str, seed: u64, shard: usize, of: usize, results_path: Option<&str>, time_cap: u64, order: u64) -> Result<(), String> {
     let thorough = tier == "thorough";
-    let mut specs = positions(seed, if thorough { 1500 } else { 120 }, if thorough { 500 } else { 60 })?;
+    let mut specs = positions(seed, if thorough { 1500 } else { 75 }, if thorough { 500 } else { 40 })?;
     // games searched move by move, as in play: position after 0, 2, 4, ... plies of the same game
     // (with its history), so that anything a search leaves behind for "the next move" is exercised
     let n_games = if thorough { 160 } else { 24 };
@@ -509,6 +575,39 @@ pub fn run_c16(tier: &str, seed: u64, shard: usize, of: usize, results_path: Opt
                 fen: g.fen.clone(),
                 moves: g.moves[..k].to_vec(),
             });
+        }
+    }
+    // long games (well over 100 earlier positions in the record) ending in a reversible tail, so
+    // that the search can step back into positions of the game
+    {
+        let mut rng = Rng::derive(seed, 0xC16_106);
+        let n_long = if thorough { 60 } else { 10 };
+        let mut made = 0;
+        let mut tries = 0;
+        while made < n_long && tries < n_long * 20 {
+            tries += 1;
+            let mut p = Pos::startpos();
+            let fen = p.fen();
+            let mut moves: Vec<String> = Vec::new();
+            let len = 110 + rng.below(80);
+            let mut ok = true;
+            for k in 0..len {
+                let lm = p.legal_moves();
+                if lm.is_empty() {
+                    ok = false;
+                    break;
+                }
+                // the last dozen plies are quiet piece moves (a reversible tail)
+                let quiet: Vec<_> = lm.iter().filter(|m| m.captured == 0 && super::oracle::kind(m.piece) != super::oracle::P && !m.castle).copied().collect();
+                let m = if k + 12 >= len && !quiet.is_empty() { *rng.pick(&quiet) } else { *rng.pick(&lm) };
+                moves.push(m.uci());
+                p = p.make(&m);
+            }
+            if !ok || p.legal_moves().is_empty() || p.half >= 95 {
+                continue;
+            }
+            specs.push(PosSpec { fen, moves });
+            made += 1;
         }
     }
     let started = std::time::Instant::now();
@@ -537,8 +636,51 @@ pub fn run_c16(tier: &str, seed: u64, shard: usize, of: usize, results_path: Opt
         }
         _ => {}
     }
+    // anything that ages with the number of searches (generation counters, ring buffers) comes
+    // round again after a power of two: every job is searched once more exactly 256 searches after
+    // its first search (padding with trivial searches to hit the index), cache emptied as always
+    let mut searches_done: u64 = 0;
+    let mut pending: std::collections::VecDeque<(usize, u8, u64, (Option<String>, Option<i16>, u64))> = std::collections::VecDeque::new();
+    let trivial = eng::load("7k/8/8/8/8/8/8/K7 w - - 0 1").ok();
     for (job, si, depth) in jobs {
         let spec = &specs[si];
+        while let Some((psi, pdepth, target, first)) = pending.front().cloned() {
+            if target < searches_done {
+                pending.pop_front();
+                continue;
+            }
+            if target - searches_done > 3 {
+                break;
+            }
+            pending.pop_front();
+            while searches_done < target {
+                if let Some(t) = &trivial {
+                    clear_tt();
+                    let _ = engine_search(t, None, Some(1));
+                }
+                searches_done += 1;
+            }
+            if let Ok((pb, _)) = specs[psi].build() {
+                clear_tt();
+                let r = engine_search(&pb, None, Some(pdepth));
+                searches_done += 1;
+                out::count("C16.reruns_256_searches_later", 1);
+                let cur = (r.best.clone(), r.score, r.nodes);
+                if r.panicked.is_none() && cur != first {
+                    out::violation(
+                        "C16",
+                        "repeat-after-256-searches",
+                        format!(
+                            "depth {pdepth} from an empty cache, searched again exactly 256 searches later in the same process: {:?}, the first time {:?}, on {}",
+                            cur,
+                            first,
+                            specs[psi].text()
+                        ),
+                        format!("{{\"kind\":\"c16\",{},\"depth\":{}}}", specs[psi].json(), pdepth),
+                    );
+                }
+            }
+        }
         {
             if started.elapsed().as_secs() > time_cap {
                 out::inconclusive("C16 jobs not started because the time cap was reached", 1);
@@ -546,9 +688,11 @@ pub fn run_c16(tier: &str, seed: u64, shard: usize, of: usize, results_path: Opt
             }
             let Ok((b, _)) = spec.build() else { continue };
             let mut first: Option<(Option<String>, Option<i16>, u64)> = None;
-            for rep in 0..3 {
+            let first_index = searches_done;
+            for rep in 0..(if thorough { 3 } else { 2 }) {
                 clear_tt();
                 let r = engine_search(&b, None, Some(depth));
+                searches_done += 1;
                 if let Some(p) = r.panicked {
                     out::violation(
                         "C16",
@@ -579,6 +723,11 @@ pub fn run_c16(tier: &str, seed: u64, shard: usize, of: usize, results_path: Opt
                     _ => {}
                 }
             }
+            if let Some(f) = first.clone() {
+                if f.2 > 200 && pending.len() < 64 {
+                    pending.push_back((si, depth, first_index + 256, f));
+                }
+            }
             if let Some(f) = first {
                 if f.2 > 50 {
                     distinct += 1;
@@ -586,6 +735,37 @@ pub fn run_c16(tier: &str, seed: u64, shard: usize, of: usize, results_path: Opt
                 lines.push(format!("{job}\t{}\t{depth}\t{:?}\t{:?}\t{}", spec.text(), f.0, f.1, f.2));
                 if out::want_sample() && job % 53 == 1 {
                     out::sample(format!("C16 {} depth {depth}: 3 runs agree on {:?} score {:?} nodes {}", spec.text(), f.0, f.1, f.2));
+                }
+            }
+        }
+    }
+    // a long think, then very many trivial searches, then the same long think again: state that
+    // ages with the number of searches and is only refreshed where a search actually goes comes
+    // round again after 2^8 (and, thorough only, 2^16) searches
+    if let (Some(t), Some(heavy)) = (&trivial, specs.iter().skip(shard % 7).find(|s| s.moves.len() >= 4)) {
+        if let Ok((hb, _)) = heavy.build() {
+            let periods: &[u64] = if thorough && shard == 0 { &[256, 65_536] } else { &[256] };
+            for &period in periods {
+                if started.elapsed().as_secs() > time_cap {
+                    break;
+                }
+                clear_tt();
+                let a = engine_search(&hb, None, Some(4));
+                for _ in 0..(period - 1) {
+                    clear_tt();
+                    let _ = engine_search(t, None, Some(1));
+                }
+                clear_tt();
+                let b2 = engine_search(&hb, None, Some(4));
+                out::count("C16.long_think_repeated_after_many_trivial_searches", 1);
+                let (x, y) = ((a.best.clone(), a.score, a.nodes), (b2.best.clone(), b2.score, b2.nodes));
+                if a.panicked.is_none() && b2.panicked.is_none() && x != y {
+                    out::violation(
+                        "C16",
+                        "repeat-after-many-trivial-searches",
+                        format!("depth 4 from an empty cache: {:?}; again after {} trivial searches in between: {:?}; on {}", x, period - 1, y, heavy.text()),
+                        format!("{{\"kind\":\"c16\",{},\"depth\":4}}", heavy.json()),
+                    );
                 }
             }
         }
